@@ -36,7 +36,7 @@ PROPS = {
     ),
     'C03': dict(
         comps=['evict_order', 'keyset'],
-        theorems=['C03_insert', 'C03_exact_fit', 'C03_mutate', 'C03_set_max', 'C03_only_when'],
+        theorems=['C03_insert', 'C03_exact_fit', 'C03_mutate', 'C03_set_max', 'C03_only_when', 'C03_pointer_level'],
         assumptions=['eviction order is observed through the order in which the evicted keys are dropped'],
     ),
     'C04': dict(
@@ -47,7 +47,7 @@ PROPS = {
     ),
     'C05': dict(
         comps=['order', 'api_order', 'panic_order'], bodies=['touch_ptr', 'set_head', 'EntryPtr::', 'Entry::unhinge', 'lru_ptr', 'mru_ptr', 'move_to_table'],
-        theorems=['C05_order', 'C05_observers', 'C05_peeks', 'C05_touch_pointer', 'C05_remove_pointer', 'C05_insert_pointer', 'C05_realloc_pointer', 'C05_touch_refines', 'C05_remove_refines', 'C05_lru_is_head'],
+        theorems=['C05_order', 'C05_observers', 'C05_peeks', 'C05_touch_pointer', 'C05_remove_pointer', 'C05_insert_pointer', 'C05_realloc_pointer', 'C05_touch_refines', 'C05_remove_refines', 'C05_lru_is_head', 'C05_pointer_level_iteration'],
         assumptions=['iteration forward and reversed, keys(), values(), peek_lru/peek_mru and Debug are cross-checked against the pointer walk of the hook after every step (flag api_order)'],
     ),
     'C06': dict(
